@@ -187,3 +187,45 @@ def call(d, obj, *a):
 
 def set_debug(flag):
     twz_cfg.RUN_DEBUG_NODES = bool(flag)
+
+
+def malformed_builds(kinds):
+    """DAG descriptions that must be rejected when built: a setup node depending on a non-setup node or on
+    a DAG argument, a non-debug node depending on a debug node — through every way a dependency can arise
+    (positional, keyword, activation flag, indexed result, operator expression).  Yields (kind, how, accepted?)."""
+    def mk(name, **kw):
+        def f(*a, **k):
+            return (name,) + a
+        f.__name__ = f.__qualname__ = name
+        return xn(f, **kw)
+    for dep_kind in kinds:
+        for how in ("pos", "kw", "flag", "indexed", "via-op", "second-arg"):
+            a = mk("a", debug=(dep_kind == "normal-on-debug"))
+            b = mk("b", setup=dep_kind.startswith("setup"))
+            c = mk("c", setup=dep_kind.startswith("setup"), debug=False)
+
+            def describe(x, dep_kind=None, how=None):
+                raise NotImplementedError
+
+            def make(dep_kind=dep_kind, how=how, a=a, b=b, c=c):
+                def describe(x):
+                    src = x if dep_kind == "setup-on-arg" else a()
+                    ok = c()
+                    if how == "pos":
+                        return b(src)
+                    if how == "kw":
+                        return b(k=src)
+                    if how == "flag":
+                        return b(twz_active=src)
+                    if how == "indexed":
+                        return b(src[0])
+                    if how == "via-op":
+                        return b(src == 1)
+                    return b(ok, src)
+                describe.__name__ = describe.__qualname__ = "describe"
+                return describe
+            try:
+                threadsafe_make_dag(make(), 1, False)
+                yield dep_kind, how, True
+            except BaseException:  # noqa: BLE001
+                yield dep_kind, how, False
